@@ -316,13 +316,14 @@ def refine(kind: str, our: dict, side: dict, ps, obs, pc: dict) -> str:
         return 'param:msg_size:%d-with-ext-msg-ours-%s-theirs-%s' % (obs[1]['msg_size'], side['summary']['ext_msg'], ps['ext_msg'])
     if kind == 'param:refresh':
         return 'param:refresh:got-%s' % obs[1]['refresh']
-    if kind.startswith('not-refused:') and 'peer-as' in kind and ps is not None and ps['asn4_all'] and side['summary']['asn4_all'] \
-            and ps['asn'] != wire.AS_TRANS:
-        return 'peer-as:asn4-cap-ignored-when-field-not-astrans'
-    if kind == 'param:peer_as' and ps is not None and ps['asn4_all'] and side['summary']['asn4_all'] and ps['asn'] != wire.AS_TRANS:
-        return 'peer-as:asn4-cap-ignored-when-field-not-astrans'
-    if kind == 'not-refused:rid-collision-ibgp' and our['las'] > 65535:
-        return 'not-refused:rid-collision-ibgp:4-octet-local-as'
+    both4 = ps is not None and bool(ps['asn4_all']) and bool(side['summary']['asn4_all'])
+    if both4 and ps['asn'] != wire.AS_TRANS and ps['asn'] not in ps['asn4_all']:
+        # two NEW speakers, the 2-octet field is neither AS_TRANS nor the capability value
+        if kind == 'param:peer_as' or kind.startswith('wrong-subcode:peer-as:') or (kind.startswith('not-refused:') and 'peer-as' in kind):
+            return 'peer-as:asn4-cap-ignored-when-field-not-astrans'
+    if kind == 'not-refused:rid-collision-ibgp' and both4 and ps['asn'] == wire.AS_TRANS:
+        # the peer is internal by its ASN4 capability value while its 2-octet field holds AS_TRANS
+        return 'not-refused:rid-collision-ibgp:peer-as-only-in-asn4-capability'
     return kind
 
 
